@@ -1,6 +1,7 @@
 package main
 
 import (
+	"encoding/json"
 	"fmt"
 	"strings"
 
@@ -132,6 +133,31 @@ func runC12(c *Ctx) error {
 			c.Case(fmt.Sprintf("%s ; tm none ; pk %s ; pm none", base, hx([]byte(key))), fmt.Sprintf("%s %s %s", b01(valid), c12shape(p), b01(perr == nil)))
 			if n >= 3 {
 				c.Nontrivial(fmt.Sprintf("%s/%d", base, ki))
+			}
+			// the proof as it travels (JSON): an empty slot of the path must stay empty — written to carry a key that is
+			// not in the tree, it must not prove that key
+			if pb, err := json.Marshal(p); err == nil {
+				var raw []json.RawMessage
+				if json.Unmarshal(pb, &raw) == nil {
+					for slot, nd := range p.Nodes() {
+						if nd != nil && !nd.IsEmpty() {
+							continue
+						}
+						fraw := append([]json.RawMessage{}, raw...)
+						fraw[slot] = json.RawMessage(`{"isempty":true,"key":"not-in-the-tree"}`)
+						fb, _ := json.Marshal(fraw)
+						var forged fixedtree.Proof
+						if json.Unmarshal(fb, &forged) != nil {
+							continue
+						}
+						c.Eval(1)
+						c.Count("forged-empty-slot", "tried")
+						if forged.IsValid(nil) == nil && forged.Prove("not-in-the-tree") == nil {
+							c.Violation("C12:key-outside-the-tree-proved", fmt.Sprintf("%s: the proof of %q, sent as JSON with its empty slot %d rewritten to carry the key \"not-in-the-tree\", proves that key", base, key, slot),
+								map[string]interface{}{"keys": keys, "key": key, "slot": slot, "proof_json": string(fb)})
+						}
+					}
+				}
 			}
 			// proof mutations: every entry, key and hash
 			pn := p.Nodes()
